@@ -3,6 +3,7 @@
 use kvc::util::Opts;
 mod c10;
 mod hist;
+mod c11;
 
 fn main() {
     let args: Vec<String> = std::env::args().collect();
@@ -14,6 +15,7 @@ fn main() {
     let rc = match args[1].as_str() {
         "c10" => c10::run(&opts),
         "hist" => hist::run(&opts),
+        "c11" => c11::run(&opts),
         other => {
             eprintln!("unknown subcommand {other}");
             2
